@@ -19,6 +19,7 @@ var globalGenerator = NewVarGenerator()
 
 func Genvar(hint string) string {
 	globalGenerator.counter++
+	genvarTrace(hint, globalGenerator.counter)
 	return fmt.Sprintf("gen_%s_%d", hint, globalGenerator.counter)
 }
 
